@@ -13,6 +13,7 @@ CONSTANTS
   MaxNoise = 1
   MaxCrashes = 1
   Conc = TRUE
+  RestorerFixed = TRUE
   MaxProofDepth = 128
   Excuse <- AllExcuses
 VIEW View
